@@ -72,7 +72,7 @@ class MixedCategoricalAggregator(Aggregator):
             raise ValueError("The length of `weights` must match the number of predictors in `y`.")
 
         self._np = np
-        if all(isinstance(pred, np.ma.MaskedArray) for pred in y):
+        if any(isinstance(pred, np.ma.MaskedArray) for pred in y):
             self._np = np.ma
 
         # Stack predictions and compute ensemble probabilities
